@@ -40,3 +40,10 @@ MUTANTS += [
      [("src/pptx/opc/package.py", "        if self._rel_ref_count(rId) < 2:\n            self._rels.pop(rId)", "        if self._rel_ref_count(rId) < 3:\n            self._rels.pop(rId)")],
      "R2.4 XmlPart.drop_rel:count"),
 ]
+
+MUTANTS += [
+    ("placeholders-snapshot", "BaseSlide placeholders memoised as a tuple",
+     [("src/pptx/slide.py", "        slides = self.part.package.presentation_part.presentation.slides\n        return tuple(s for s in slides if s.slide_layout == self)",
+       "        slides = self.part.package.presentation_part.presentation.slides\n        return tuple(s for s in slides if s.slide_layout == self)\n\n    @lazyproperty\n    def _all_shapes(self):\n        return tuple(s for s in self.shapes)")],
+     "R2.1 SlideLayout._all_shapes:snapshot"),
+]
